@@ -16,6 +16,7 @@ import (
 	"strings"
 	"sync"
 	"testing"
+	"time"
 	"unicode/utf8"
 
 	"github.com/AsaiYusuke/jsonpath"
@@ -402,7 +403,13 @@ func checkRapid(t *testing.T, property, check, rule string, draw func(rt *rapid.
 		c := draw(rt)
 		c.Property, c.Check = property, check
 		st.Case()
-		if msg := safeRun(fn, c, st); msg != "" {
+		begin := time.Now()
+		msg := safeRun(fn, c, st)
+		if d := time.Since(begin); d > 2*time.Second {
+			st.Class("slow-case(>2s)")
+			fmt.Fprintf(os.Stderr, "SLOW-CASE %s %.1fs path=%q doc=%s\n", check, d.Seconds(), c.Path, c.docPreview())
+		}
+		if msg != "" {
 			Fail(rt, c, "%s", msg)
 		}
 	})
